@@ -3,6 +3,7 @@ import SqfModel.Lex
 import SqfModel.Parse
 import SqfModel.Compile
 import SqfModel.Pbo
+import SqfModel.CfgText
 /-!
 # C10 — front ends are total: any input yields a result or a diagnostic, never a crash
 
@@ -17,8 +18,9 @@ code generator on top of it (`Parse.lean`, `Compile.lean`). They hold for every 
 * `assemble` is a total function into `Option`: every input is accepted (a program) or rejected — there
   is no third outcome — and the same input always gives the same result.
 
-The config front end and the preprocessor are not modelled here; for them (and for the implementation
-side of the above) totality is explored by the check on mutated inputs.
+The config tokenizer and grammar are modelled in `CfgText.lean`; the same four statements are proved for them
+at the end of this file (progress, termination within `length + 1` tokens, tokens spell the input, the parse is
+a total function).  For the implementation side totality is explored by the check on mutated inputs.
 -/
 set_option linter.unusedSimpArgs false
 set_option linter.unusedVariables false
@@ -216,5 +218,128 @@ theorem C10_preprocess_total (e : Env) (t : Table) (text : List B) : (∃ out, r
   cases h : run e t text with
   | ok o => exact Or.inl ⟨o, rfl⟩
   | error c => exact Or.inr ⟨c, rfl⟩
+
+/-! ## The config front end (`CfgText.lean`): the same statements for the config tokenizer and grammar -/
+
+open Sqf.CfgText
+
+theorem cfg_tryMatch_pos (st : LS) : ∀ ks k m, CfgText.tryMatch st ks = some (k, m) → m.len ≠ 0 := by
+  intro ks
+  induction ks with
+  | nil => intro k m h; simp [CfgText.tryMatch] at h
+  | cons k0 ks ih =>
+    intro k m h
+    rw [CfgText.tryMatch] at h
+    split at h
+    · next m0 hm =>
+      split at h
+      · exact ih k m h
+      · next hne =>
+        simp only [Option.some.injEq, Prod.mk.injEq] at h
+        rw [← h.2]; simpa using hne
+    · exact ih k m h
+
+/-- **progress**: a config token that is neither `eof` nor `invalid` consumes at least one byte -/
+theorem C10_cfg_next_progress (st : LS)
+    (h : (CfgText.next st).1.kind ≠ .eof ∧ (CfgText.next st).1.kind ≠ .invalid) :
+    (CfgText.next st).2.rest.length < st.rest.length := by
+  unfold CfgText.next at h ⊢
+  split
+  · next hr => simp [hr] at h
+  · next c cs hr =>
+    split
+    · next hc => simp [hr, hc] at h
+    · next ks hc =>
+      split
+      · next ht => simp [hr, hc, ht] at h
+      · next k m ht =>
+        have := cfg_tryMatch_pos st ks k m ht
+        simp only [List.length_drop, hr, List.length_cons]
+        omega
+
+theorem cfg_lexAll_ends : ∀ (f : Nat) (st : LS), st.rest.length < f →
+    ∃ t, (CfgText.lexAll f st).getLast? = some t ∧ (t.kind = .eof ∨ t.kind = .invalid) := by
+  intro f
+  induction f with
+  | zero => intro st h; omega
+  | succ f ih =>
+    intro st h
+    rw [CfgText.lexAll]
+    by_cases hk : ((CfgText.next st).1.kind == .eof || (CfgText.next st).1.kind == .invalid) = true
+    · simp only [hk, if_true]
+      refine ⟨(CfgText.next st).1, by simp, ?_⟩
+      simpa using hk
+    · simp only [hk, Bool.false_eq_true, if_false]
+      have hk' : (CfgText.next st).1.kind ≠ .eof ∧ (CfgText.next st).1.kind ≠ .invalid := by
+        simp only [Bool.or_eq_true, beq_iff_eq, not_or] at hk
+        exact hk
+      have hp := C10_cfg_next_progress st hk'
+      obtain ⟨t, ht, hkind⟩ := ih (CfgText.next st).2 (by omega)
+      refine ⟨t, ?_, hkind⟩
+      cases hl : CfgText.lexAll f (CfgText.next st).2 with
+      | nil => rw [hl] at ht; simp at ht
+      | cons a as => rw [hl] at ht; simpa [List.getLast?_cons_cons] using ht
+
+/-- **Tokenizing a config text terminates in at most `length + 1` tokens, for every byte string** -/
+theorem C10_cfg_lexer_terminates (s : List B) :
+    ∃ t, (CfgText.lexText s).getLast? = some t ∧ (t.kind = .eof ∨ t.kind = .invalid) := by
+  unfold CfgText.lexText
+  exact cfg_lexAll_ends (s.length + 1) (LS.init s) (by simp [LS.init])
+
+theorem cfg_lexAll_length : ∀ (f : Nat) (st : LS), (CfgText.lexAll f st).length ≤ f := by
+  intro f
+  induction f with
+  | zero => intro st; simp [CfgText.lexAll]
+  | succ f ih =>
+    intro st
+    rw [CfgText.lexAll]
+    split
+    · simp
+    · simp only [List.length_cons]; have := ih (CfgText.next st).2; omega
+
+theorem C10_cfg_token_count_linear (s : List B) : (CfgText.lexText s).length ≤ s.length + 1 := by
+  unfold CfgText.lexText; exact cfg_lexAll_length _ _
+
+/-- every config token's text is a prefix of what was left of the input -/
+theorem C10_cfg_token_is_prefix (st : LS) :
+    (CfgText.next st).1.text ++ (CfgText.next st).2.rest = st.rest ∨
+      ((CfgText.next st).1.text = [] ∧ (CfgText.next st).2.rest = st.rest) := by
+  unfold CfgText.next
+  split
+  · right; exact ⟨rfl, rfl⟩
+  · split
+    · right; exact ⟨rfl, rfl⟩
+    · split
+      · right; exact ⟨rfl, rfl⟩
+      · left; exact List.take_append_drop _ _
+
+/-- the grammar never sees more tokens than the tokenizer produced -/
+theorem attachR_length (l : List RawTok) : (attachR l).2.length ≤ l.length := by
+  induction l with
+  | nil => simp [attachR]
+  | cons t ts ih =>
+    rw [attachR]
+    split
+    · simp only [List.length_cons]; omega
+    · simp only [List.length_cons]; omega
+
+theorem C10_cfg_tokens_linear (s : List B) : (CfgText.tokens s).length ≤ s.length + 1 := by
+  unfold CfgText.tokens CfgText.attach
+  exact Nat.le_trans (attachR_length _) (C10_cfg_token_count_linear s)
+
+/-- parsing a config text is a total function: a tree or a rejection, the same for the same text -/
+theorem C10_cfg_parse_total (s : List B) : (∃ ns, CfgText.parseText s = some ns) ∨ CfgText.parseText s = none := by
+  cases h : CfgText.parseText s with
+  | some p => exact Or.inl ⟨p, rfl⟩
+  | none => exact Or.inr rfl
+
+-- inputs that made the config tokenizer of the pinned tree hang or leave its buffer: an unclassifiable byte, an
+-- unterminated string, an unterminated block comment, a number cut at its exponent
+example : ((CfgText.lexText n!"class @").getLast?.map (·.kind)) = some .invalid := by decide +kernel
+example : ((CfgText.lexText n!"a = \"open").getLast?.map (·.kind)) = some .eof := by decide +kernel
+example : ((CfgText.lexText n!"/* open").getLast?.map (·.kind)) = some .eof := by decide +kernel
+example : ((CfgText.lexText n!"x = 1e+").map (·.kind.toNat)) = [20, 6, 17, 6, 21, 2, 0] := by decide +kernel
+example : CfgText.parseText n!"class A { a = 1 }" = none := by decide +kernel
+
 
 end Sqf.Props.C10
